@@ -14,6 +14,7 @@ import z3
 from . import extract
 from .values import *  # noqa: F401,F403
 from .values import (
+    Partial,
     Ref,
     ListE,
     DequeE,
@@ -1079,6 +1080,10 @@ class Interp:
             yield from self.instantiate(f, args, kwargs, st)
         elif isinstance(f, BuiltinClass):
             yield from self.models.call_builtin_class(self, st, f, list(args), dict(kwargs))
+        elif isinstance(f, Partial):
+            kw = dict(f.kwargs)
+            kw.update(kwargs)
+            yield from self.call(f.func, f.args + list(args), kw, st, node)
         elif isinstance(f, Opaque):
             yield st, Opaque("call of " + f.desc)
         elif isinstance(f, Ref) and st.get(f).kind == "obj":
